@@ -178,10 +178,10 @@ def run(ctx, model):
                             continue
                         jobs.append((wide, False, "".join(sorted(l_)), lt, "".join(sorted(r_)), rt, op, order))
     results = _parallel(ctx, model, sorted(W), jobs)
-    for (alpha, neg, ma, ta, mb, tb, op, order), (kind, payload) in zip(jobs, results):
+    def judge(ctx, item):
+        (alpha, neg, ma, ta, mb, tb, op, order), (kind, payload) = item
         ma, mb = frozenset(ma), frozenset(mb)
         f = f_or if op == "|" else f_sub
-        n_alg += 1
         want = (ma | mb) if op == "|" else (ma - mb)
         inp = f"{ta} {op} {tb} [set order {order}]"
         ctx.instance("R-SETALG", key=inp, sample=f"{inp} -> {payload!r}")
@@ -190,18 +190,18 @@ def run(ctx, model):
                 ctx.violation("R-SETALG", f.relpath, f.short, "termination",
                               f"class {'union' if op == '|' else 'subtraction'} does not terminate within the step budget "
                               "(the interval worklist loops forever)", f.node.lineno, inp=_shape(ma, mb, alpha, op), detail=f"{inp}: {payload}")
-                continue
+                return 1
             raise AnalysisError(f"R-SETALG: {inp}: {payload}")
         if not want:
             if not (kind == "raise" and payload[0] == "EmptyClassException"):
                 ctx.violation("R-SETALG", f.relpath, f.short, "emptiness", "A - B must raise EmptyClassException exactly when nothing is left",
                               f.node.lineno, inp=_shape(ma, mb, alpha, op), detail=f"{inp}: got {payload!r}")
-            continue
+            return 1
         if kind == "raise":
             ctx.violation("R-SETALG", f.relpath, f.short, payload[1] or "<raise>",
                           f"class {'union' if op == '|' else 'subtraction'} fails with {payload[0]}", f.node.lineno,
                           inp=_shape(ma, mb, alpha, op), detail=inp)
-            continue
+            return 1
         text, rneg, pattern, verbose, fneg = payload
         want_iv = of_chars(want)
         problems = []
@@ -216,6 +216,9 @@ def run(ctx, model):
                           f"class {'union' if op == '|' else 'subtraction'} is not exact set algebra", f.node.lineno,
                           inp=_shape(ma, mb, alpha, op),
                           detail=f"{inp}: required {sorted(want)}{' negated' if neg else ''}; " + "; ".join(problems))
+
+        return 1
+    n_alg = sum(ctx.parallel(list(zip(jobs, results)), judge))
     ctx.floor("R-SETALG", n_alg, 1500, "operand pairs")
 
     # ---------------- R-INVERT
